@@ -601,11 +601,19 @@ elf_bmp_cleanup(const kdump_bmp_t *bmp)
 	shared_decref(shared);
 }
 
+static void
+elf_bmp_cleanup_locked(const kdump_bmp_t *bmp)
+{
+	struct kdump_shared *shared = bmp->priv;
+	shared_decref_locked(shared);
+}
+
 static const struct kdump_bmp_ops elf_file_bmp_ops = {
 	.get_bits = elf_file_get_bits,
 	.find_set = elf_file_find_set,
 	.find_clear = elf_file_find_clear,
 	.cleanup = elf_bmp_cleanup,
+	.cleanup_locked = elf_bmp_cleanup_locked,
 };
 
 static const struct kdump_bmp_ops elf_mem_bmp_ops = {
@@ -613,6 +621,7 @@ static const struct kdump_bmp_ops elf_mem_bmp_ops = {
 	.find_set = elf_mem_find_set,
 	.find_clear = elf_mem_find_clear,
 	.cleanup = elf_bmp_cleanup,
+	.cleanup_locked = elf_bmp_cleanup_locked,
 };
 
 static void
